@@ -28,6 +28,11 @@ class TurnBasedManager(SimulationManager):
             if not is_agent(agent)
         )
         self.sim.reset(**kwargs)
+        # Restart the turn order so that every episode begins with the first agent.
+        self.agent_order = cycle({
+            agent_id: agent for agent_id, agent in self.agents.items()
+            if is_agent(agent)
+        })
         next_agent = next(self.agent_order)
         return {next_agent: self.sim.get_obs(next_agent)}
 
